@@ -425,6 +425,8 @@ func registerMoreIntrinsics() {
 		}
 		return nil
 	}
+	// insertion sort moves an element only past strictly greater ones: it is stable
+	in["sort.SliceStable"] = in["sort.Slice"]
 	in["strconv.Quote"] = func(fr *frame, a []Value) Value {
 		x := fr.x
 		s := a[0].(Str)
